@@ -41,6 +41,13 @@ Theorem C03_refuted_drop8 :
   has_ty s8 (TTuple [TS SI8; TS SI32]) = true /\ refl_enc only_drop8 s8 <> spec_enc s8.
 Proof. exact WireRefute.refl_drop8_refuted. Qed.
 Print Assumptions C03_refuted_drop8.
+(* finding refl_list_over_4096: the hypothesis lens_ok of C03_refl_dec is needed — a list of 4097
+   bytes is encoded as documented and refused by the decoder *)
+Theorem C03_refuted_list_over_4096 :
+  has_ty bytes4097 (TList (TS SU8)) = true /\ refl_enc wclean bytes4097 = spec_enc bytes4097 /\
+  exists l, refl_dec wclean tval_eqb (TList (TS SU8)) (spec_enc bytes4097) = RErr l.
+Proof. exact WireRefute.refl_list_unbounded_refuted. Qed.
+Print Assumptions C03_refuted_list_over_4096.
 
 Example C03_nonvacuous :
   good_ty ex_ty = true /\ has_ty ex_val ex_ty = true /\ dyn_depth ex_val = 1%nat /\ (List.length (spec_enc ex_val) = 39)%nat.
